@@ -81,6 +81,16 @@ def history_events(src, n):
                "src": dict(src, n=n, mut=1), "post_equal": True}
 
 
+def other_start_events(src, n):
+    """history: the same rule list asked again in the same process with ANOTHER start variable"""
+    G = cfgsrc.build(src)
+    others = sorted(v for v in G.V if v != G.S and any(r.variable == v for r in G.R))
+    if not others or "start" in src:
+        return
+    inv = {v: k for k, v in (U.VAR_NAME_POOLS[src["vnames"]] if src.get("vnames") is not None else {}).items()}
+    yield from events(dict(src, start=inv.get(others[0], others[0])), n)
+
+
 def drive(task):
     if task["kind"] == "small":
         for i, rules in enumerate(cfgsrc.small_grammars(3)):
@@ -93,8 +103,15 @@ def drive(task):
         rng = random.Random(task["seed"])
         for i in range(task["count"]):
             src = cfgsrc.random_src(rng, cnf=rng.random() < 0.35)
+            if i % 4 == 3:
+                src["vnames"] = rng.randrange(len(U.VAR_NAME_POOLS))     # multi-character variable names
             yield from events(src, task["n"])
             yield from history_events(src, task["n"])
+            if i % 3 == 2:
+                yield from other_start_events(src, task["n"])
+        for i in range(task["count"] // 6):
+            src = dict(cfgsrc.dense_src(rng), vnames=rng.randrange(len(U.VAR_NAME_POOLS)))
+            yield from events(src, task["n"] + 1)
 
 
 def redrive(src):
@@ -109,7 +126,9 @@ MODELS = {"quick": [("Cyk", "Cyk_q.cfg", "all CNF grammars with <= 3 rules over 
           "thorough": [("Cyk", "Cyk_t.cfg", "all CNF grammars with <= 4 rules x words <= 3")]}
 RULE = ("grammars over variables {S,A}, terminals {a,b}: all rule sets of <= 3 rules with right-hand sides of length "
         "<= 2 (every 5th in quick), 13 hand-written grammars with epsilon/unit/cyclic/useless rules, random grammars "
-        "with 2-4 variables and rules up to length 4; membership of every word <= n (3/4) and the full CYK table of the "
+        "with 2-4 variables and rules up to length 4 (every fourth with multi-character variable names that are "
+        "prefixes / concatenations of each other; every third asked again with another start variable), dense CNF "
+        "grammars with such names and words <= n+1; membership of every word <= n (3/4) and the full CYK table of the "
         "CNF form for sampled words; non-trivial = grammar has an epsilon or unit rule or >= 3 rules; distinct = "
         "distinct abstract grammar (+ word)")
 
